@@ -37,6 +37,35 @@ def _from_extra_names(t):
     return any(x == ("param", "extra_coords_names") or (x[0] == "call" and callee(x) == "verde.base.utils.check_extra_coords_names") for x in walk(t) if isinstance(x, tuple) and x)
 
 
+def _mapping_view(t):
+    """(mapping term, is_sorted) when t enumerates a mapping: M, M.keys(), M.values(), M.items(), list(...)/tuple(...) of these, sorted(...) of
+    these (without a key function); None otherwise"""
+    srt = False
+    while True:
+        if t[0] == "call" and callee(t) in ("builtins.list", "builtins.tuple") and len(t[2]) == 1 and not t[3]:
+            t = t[2][0]
+        elif t[0] == "call" and callee(t) == "builtins.sorted" and len(t[2]) == 1 and not t[3]:
+            srt = True
+            t = t[2][0]
+        elif t[0] == "call" and t[1][0] == "attr" and t[1][2] in ("keys", "values", "items") and not t[2] and not t[3]:
+            return t[1][1], srt
+        else:
+            return None
+
+
+def _order_clash(names, arrays):
+    """names and arrays are paired positionally (zip).  True iff one of them enumerates a mapping M in sorted-key order and the other
+    enumerates the same M in its own order (M.values(), M.items(), a comprehension over them)."""
+    a = _mapping_view(names)
+    it = arrays[3] if arrays[0] == "comp" and not arrays[5] else arrays
+    b = _mapping_view(it)
+    if a is None or b is None or a[0] != b[0]:
+        return False
+    if it == names:
+        return False
+    return a[1] != b[1]
+
+
 def check(ctx):
     c05.r2_make_xarray_grid(ctx, rule="R1")
     c05.r3_mesh(ctx, rule="R1")
@@ -102,7 +131,11 @@ def check(ctx):
             dn = ("list", tuple(k for k, _v in pairs))
             da = ("list", tuple(v for _k, v in pairs))
         okd = None
-        if da[0] == "comp" and da[3] == dn:
+        if _order_clash(dn, da):
+            # names taken in sorted order, arrays in the mapping's own (declaration) order, or the other way round: a positive
+            # contradiction - for some Dataset the two orders differ and every column is labelled with another variable's name
+            okd = False
+        elif da[0] == "comp" and da[3] == dn:
             elt = Q.unwrap(da[2])
             okd = True if elt[0] == "sub" and elt[1] == ("param", "grid") and elt[2] == ("elem", dn, da[4]) else None
         elif da[0] == "list" and len(da[1]) == 1 and dn[0] == "list" and len(dn[1]) == 1:
@@ -120,7 +153,8 @@ def check(ctx):
             unguarded = nm == gname and named is None
             ctx.check("R2", "%s|unnamed-dataarray-is-scalars" % GT, True if oku else (False if unguarded or (named is True and nm == gname) else None),
                       "an unnamed DataArray becomes the column 'scalars'", bad="an unnamed DataArray produces a None column name", fn=GT)
-        ctx.check("R2", "%s|data-columns-in-step|%s" % (GT, tag), okd, "data columns are the raveled variables, in the order of their names", fn=GT)
+        ctx.check("R2", "%s|data-columns-in-step|%s" % (GT, tag), okd, "data columns are the raveled variables, in the order of their names",
+                  bad="the variable names are enumerated in another order than the arrays they label (sorted names against the mapping's own order)", fn=GT)
         # extra coordinates appended with their own names
         exc = [x for x in cols_t[1][2:]] if cols_t[0] == "list" else []
         exn = [x for x in names_t[1][1:]] if names_t[0] == "list" else []
